@@ -101,6 +101,8 @@ class C20(Check):
             st.tuples(st.just("relate"), st.integers(0, 7), st.integers(0, 7), st.integers(0, 7)),
             st.tuples(st.just("relate"), st.integers(0, 7), st.integers(0, 7), st.integers(0, 7)),
             st.tuples(st.just("drop"), st.integers(0, 7)),
+            st.tuples(st.just("unlink"), st.integers(0, 7)),
+            st.tuples(st.just("sweep")),
         ]
         if with_queries:
             ops += [
@@ -148,7 +150,11 @@ class C20(Check):
                 kind = M.FIELDS[(cls, f)][1]
                 if kind == "single":
                     if getattr(s, f) is not None:
-                        continue
+                        # a single-valued field is written a second time only on an agent without roles (the relation
+                        # to the old target stays in the graph until one of its ends dies)
+                        if cls != "Agent" or any(isinstance(b, O.Boss) and b.agent is s for b in live):
+                            continue
+                        stats["reassigned"] = stats.get("reassigned", 0) + 1
                     if cls == "Boss" and s.agent.works_for not in (None, t):
                         continue
                     if cls == "Agent" and any(isinstance(b, O.Boss) and b.agent is s and b.head_of not in (None, t) for b in live):
@@ -159,6 +165,17 @@ class C20(Check):
                 else:
                     getattr(s, f).add(t)
                 stats["related"] += 1
+            elif k == "unlink" and live:
+                # the source of a relation stops holding its targets and outlives them: o.linked_to = []
+                orgs = [x for x in live if type(x).__name__ == "Org"]
+                if orgs:
+                    orgs[op[1] % len(orgs)].linked_to = []
+                    stats["unlinked"] = stats.get("unlinked", 0) + 1
+            elif k == "sweep":
+                from krrood.entity_query_language.symbol_graph import SymbolGraph
+
+                gc.collect()
+                SymbolGraph().remove_dead_instances()
             elif k == "drop" and live:
                 live.pop(op[1] % len(live))
             elif k == "query":
